@@ -91,6 +91,22 @@ func c17EncCheck(c c17Enc) (fs []rep.Finding) {
 			fs = append(fs, rep.F("roundtrip|decoded-data-changes-later", "data returned by an earlier decode changed when another text was decoded"))
 		}
 	}
+	// a decoded value is the caller's: its data edited in place and the value encoded again gives the
+	// text of the EDITED value (and that text decodes to it)
+	if d2, err := bscript.DecodeBIP276(got); err == nil && len(d2.Data) > 0 {
+		for i := range d2.Data {
+			d2.Data[i] ^= 0x5a
+		}
+		edited := append([]byte(nil), d2.Data...)
+		enc := bscript.EncodeBIP276(*d2)
+		if !strings.Contains(enc, ":"+fmt.Sprintf("%02x%02x", d2.Network, d2.Version)+hex.EncodeToString(edited)) && !strings.Contains(enc, ":"+fmt.Sprintf("%02x%02x", d2.Version, d2.Network)+hex.EncodeToString(edited)) {
+			fs = append(fs, rep.F("encode|stale-after-in-place-edit", "a decoded value whose data was edited in place encodes to a text that does not carry the edited data", "got", trunc(enc)))
+		} else if c.Version == c.Network {
+			if d3, err := bscript.DecodeBIP276(enc); err != nil || !bytes.Equal(d3.Data, edited) {
+				fs = append(fs, rep.F("encode|stale-after-in-place-edit", "the text of the edited value does not decode to it"))
+			}
+		}
+	}
 	// the specified layout must decode too
 	d, err = bscript.DecodeBIP276(want)
 	if err != nil {
@@ -139,7 +155,7 @@ func c17TextCheck(c c17Text) (fs []rep.Finding) {
 
 func init() {
 	p := register(&Prop{ID: "C17", Level: "exploration",
-		Rule: "exhaustive: all 65,025 (version,network) pairs in 1..255 x prefixes {bitcoin-script, bitcoin-template} x payload lengths {0,1,20} (quick) / {0,1,2,20,33,100} (thorough) plus out-of-range fields {0,256,-1}, and EVERY payload length 0..300 plus 511..513, 1023..1025, 4095..4097, 65535, 65536 for four field pairs: EncodeBIP276 text byte-identical to the reference layout, decode(encode(x))=x, spec-layout text decodes, ValidateAddress <=> decodes; and for 40 valid encodings (library-made and spec-made) EVERY single-character substitution over the alphabet of ALL printable ASCII characters plus tab, newline, NUL and a non-ASCII letter at every position, every deletion and every insertion (the valid text is decoded first, then the corrupted one): rejected whenever the reference decoder (checksum over the text, hex case-insensitive) rejects. distinct_nontrivial = distinct texts judged",
+		Rule: "every round trip also: the decoded value edited in place and encoded again must give the text of the edited value; exhaustive: all 65,025 (version,network) pairs in 1..255 x prefixes {bitcoin-script, bitcoin-template} x payload lengths {0,1,20} (quick) / {0,1,2,20,33,100} (thorough) plus out-of-range fields {0,256,-1}, and EVERY payload length 0..300 plus 511..513, 1023..1025, 4095..4097, 65535, 65536 for four field pairs: EncodeBIP276 text byte-identical to the reference layout, decode(encode(x))=x, spec-layout text decodes, ValidateAddress <=> decodes; and for 40 valid encodings (library-made and spec-made) EVERY single-character substitution over the alphabet of ALL printable ASCII characters plus tab, newline, NUL and a non-ASCII letter at every position, every deletion and every insertion (the valid text is decoded first, then the corrupted one): rejected whenever the reference decoder (checksum over the text, hex case-insensitive) rejects. distinct_nontrivial = distinct texts judged",
 	})
 	sE := NewSpace(p, "encode", c17EncCheck)
 	sT := NewSpace(p, "text", c17TextCheck)
